@@ -415,6 +415,557 @@ def gen_C10(tier, seed):
     return gen_iter("C10", tier, seed, [("cells", False, True), ("cells_mut", False, True), ("iter_ref", False, True), ("iter_mut", False, True)])
 
 
+# ------------------------------------------------------------------------------------------ C13 .. C17, C04
+
+def mut_receivers(rng, C, R, nwin, nested=True):
+    """mutable receivers: root, ext, view_mut windows (interior, edges, single row/col), nested"""
+    out = ["@", "@x"]
+    ws = [w for w in valid_windows(C, R)]
+    for w in sample(rng, ws, nwin):
+        s = ",".join(map(str, w))
+        out.append(f"@v({s})")
+        wc, wr = w[2] - w[0], w[3] - w[1]
+        if nested and wc > 0 and wr > 0:
+            i = rng.choice(valid_windows(wc, wr))
+            out.append(f"@v({s})v({','.join(map(str, i))})")
+            out.append(f"@xv({s})")
+    if C * R > 0:
+        out.append(f"@S({C},{R},{C * R})")
+    return out
+
+
+def recv_dims(C, R, rv):
+    """dimensions of a receiver token produced by mut_receivers (valid windows only)"""
+    import re as _re
+    c, r = C, R
+    for mm in _re.finditer(r"[vwS]\(([0-9,]+)\)", rv):
+        a = list(map(int, mm.group(1).split(",")))
+        if len(a) == 4:
+            c, r = a[2] - a[0], a[3] - a[1]
+            if c == 0 or r == 0:
+                c = r = 0
+        else:
+            c, r = a[0], a[1]
+    return c, r
+
+
+def idx_values(dim):
+    return list(range(dim + 2)) + [U64]
+
+
+def gen_C13(tier, seed):
+    rng = random.Random(seed)
+    b = Builder("C13")
+    maxd = 3 if tier == "quick" else 4
+    for (C, R) in shapes(maxd):
+        d = uniq(C * R, 100)
+        root = f"@ from_vec {C} {R} {fl(d)}"
+        for rv in mut_receivers(rng, C, R, 4 if tier == "quick" else 12):
+            c, r = recv_dims(C, R, rv)
+            lines = [root]
+            for r1 in idx_values(r):
+                for r2 in idx_values(r):
+                    lines += [f"{rv} swap_rows {r1} {r2}", f"{rv} row_pair {r1} {r2}"]
+            for c1 in idx_values(c):
+                for c2 in idx_values(c):
+                    lines.append(f"{rv} swap_cols {c1} {c2}")
+            cells = [(x, y) for x in idx_values(c) for y in idx_values(r)]
+            for _ in range(30 if tier == "quick" else 120):
+                a, bb = rng.choice(cells), rng.choice(cells)
+                lines.append(f"{rv} swap {a[0]} {a[1]} {bb[0]} {bb[1]}")
+            b.case("u32", lines)
+            b.case("cell", [root, f"{rv} fill 7", "@ dump", f"{rv} swap_rows 0 {max(0, r - 1)}", f"{rv} swap_cols 0 {max(0, c - 1)}",
+                            f"{rv} swap 0 0 {max(0, c - 1)} {max(0, r - 1)}", f"{rv} fill 9"])
+            b.case("u32", [root, f"{rv} fill 5", "@ dump"])
+    return b.cases
+
+
+def gen_C14(tier, seed):
+    rng = random.Random(seed)
+    b = Builder("C14")
+    maxd = 3 if tier == "quick" else 4
+    for (C, R) in shapes(maxd):
+        d = uniq(C * R, 100)
+        root = f"@ from_vec {C} {R} {fl(d)}"
+        for rv in mut_receivers(rng, C, R, 4 if tier == "quick" else 12):
+            c, r = recv_dims(C, R, rv)
+            n = c * r
+            for elem in ["u32", "cell"]:
+                lines = [root]
+                for L in sorted(set([n, max(0, n - 1), n + 1, 0])):
+                    src = uniq(L, 500)
+                    if elem == "u32":
+                        lines.append(f"{rv} copy_from_slice {fl(src)}")
+                    lines.append(f"{rv} clone_from_slice {fl(src)}")
+                # sources: owned of the same / different shape, strided view of a larger array
+                for (sc, sr) in [(c, r), (r, c), (c + 1, r), (c, r + 1)]:
+                    if (sc == 0) != (sr == 0):
+                        continue
+                    src = uniq(sc * sr, 700)
+                    for op in (["copy_from_toodee"] if elem == "u32" else []) + ["clone_from_toodee"]:
+                        lines.append(f"{rv} {op} {sc} {sr} {fl(src)}")
+                bc, br = c + 2, r + 1
+                big = uniq(bc * br, 900)
+                for op in (["copy_from_toodee"] if elem == "u32" else []) + ["clone_from_toodee"]:
+                    lines.append(f"{rv} {op} {bc} {br} {fl(big)} 1 1 {1 + c} {1 + r}")
+                    lines.append(f"{rv} {op} {bc} {br} {fl(big)} 0 0 {c} {r}")
+                    lines.append(f"{rv} {op} {bc} {br} {fl(big)} 0 0 {c + 1} {r}")
+                b.case(elem, lines)
+            # copy_within: all source rectangles x all destination corners (valid + one-off invalid + huge)
+            rects = [(c0, r0, c1, r1) for c0 in range(c + 2) for c1 in range(c + 2) for r0 in range(r + 2) for r1 in range(r + 2)]
+            dests = [(x, y) for x in list(range(c + 2)) + [U64] for y in list(range(r + 2)) + [U64]]
+            combos = [(q, dd) for q in rects for dd in dests]
+            lines = [root]
+            for (q, dd) in sample(rng, combos, 150 if tier == "quick" else 800):
+                lines.append(f"{rv} copy_within {q[0]} {q[1]} {q[2]} {q[3]} {dd[0]} {dd[1]}")
+            b.case("u32", lines)
+    return b.cases
+
+
+def gen_C15(tier, seed):
+    rng = random.Random(seed)
+    b = Builder("C15")
+    maxd = 5 if tier == "quick" else 8
+    for (C, R) in shapes(maxd):
+        if tier == "quick" and C * R > 16 and (C + R) % 3:
+            continue
+        d = uniq(C * R, 100)
+        root = f"@ from_vec {C} {R} {fl(d)}"
+        lines = []
+        for mc in list(range(C + 2)) + [U64]:
+            for mr in list(range(R + 2)) + [U64]:
+                lines += [root, f"@ translate {mc} {mr}"]
+        lines += [root, "@ flip_rows", "@ flip_cols", "@x flip_rows", "@x flip_cols", f"@x translate {C // 2} {R // 2}"]
+        b.case("u32", lines)
+        for rv in mut_receivers(rng, C, R, 3 if tier == "quick" else 10)[2:]:
+            c, r = recv_dims(C, R, rv)
+            lines = []
+            for mc in range(c + 2):
+                for mr in range(r + 2):
+                    lines += [root, f"{rv} translate {mc} {mr}"]
+            lines += [root, f"{rv} flip_rows", f"{rv} flip_cols"]
+            b.case("u32", lines)
+    # larger shapes: every gcd pattern
+    for R in ([6, 8, 9, 12] if tier == "quick" else range(6, 17)):
+        for C in [1, 3, 4]:
+            d = uniq(C * R, 100)
+            root = f"@ from_vec {C} {R} {fl(d)}"
+            lines = []
+            for mr in range(R + 1):
+                lines += [root, f"@ translate {rng.randrange(C + 1)} {mr}"]
+            b.case("cell", lines)
+    return b.cases
+
+
+SORT_ROW = ["sort_by_row", "sort_unstable_by_row", "sort_by_row_key", "sort_unstable_by_row_key", "sort_row_ord", "sort_unstable_row_ord"]
+SORT_COL = ["sort_by_col", "sort_unstable_by_col", "sort_by_col_key", "sort_unstable_by_col_key", "sort_col_ord"]
+
+
+def key_lines(rng, n, k):
+    """distinct cell values whose keys (val % 8) range over a small alphabet: all tie patterns appear over many draws"""
+    used = set()
+    out = []
+    for _ in range(n):
+        key = rng.randrange(k)
+        v = key + 8 * rng.randrange(1, 200)
+        while v in used:
+            v += 8
+        used.add(v)
+        out.append(v)
+    return out, used
+
+
+def gen_sort(pid, tier, seed, ops, by_row):
+    rng = random.Random(seed)
+    b = Builder(pid)
+    maxd = 4 if tier == "quick" else 5
+    reps = 3 if tier == "quick" else 12
+    for (C, R) in shapes(maxd):
+        for rep in range(reps):
+            vals, used = key_lines(rng, C * R, 3)
+            root = f"@ from_vec {C} {R} {fl(vals)}"
+            for rv in mut_receivers(rng, C, R, 2 if tier == "quick" else 6, nested=False):
+                c, r = recv_dims(C, R, rv)
+                lines = []
+                dim = r if by_row else c
+                for op in ops:
+                    for k in list(range(dim + 2)) + [U64]:
+                        lines += [root, f"{rv} {op} {k}"]
+                b.case(rng.choice(["u32", "cell"]), lines)
+    # wide arrays so that an unstable sort really reorders ties and insertion-sort thresholds are crossed
+    for n in ([40, 70] if tier == "quick" else [24, 40, 70, 130, 260]):
+        for rep in range(2 if tier == "quick" else 5):
+            other = 2
+            C, R = (n, other) if by_row else (other, n)
+            vals, _ = key_lines(rng, C * R, 2)
+            root = f"@ from_vec {C} {R} {fl(vals)}"
+            lines = []
+            for op in ops:
+                lines += [root, f"@ {op} {rng.randrange(other)}", root, f"@v(0,0,{C},{R}) {op} 0", root, f"@x {op} 1"]
+            b.case("u32", lines)
+    return b.cases
+
+
+def gen_C16(tier, seed):
+    return gen_sort("C16", tier, seed, SORT_ROW, True)
+
+
+def gen_C17(tier, seed):
+    return gen_sort("C17", tier, seed, SORT_COL, False)
+
+
+def gen_C04(tier, seed):
+    """every mutating operation on views placed at every kind of position; the whole parent is in the state dump"""
+    rng = random.Random(seed)
+    b = Builder("C04")
+    maxd = 4 if tier == "quick" else 5
+    for (C, R) in shapes(maxd):
+        if C * R == 0:
+            continue
+        vals, _ = key_lines(rng, C * R, 3)
+        root = f"@ from_vec {C} {R} {fl(vals)}"
+        wins = valid_windows(C, R)
+        for w in sample(rng, wins, 10 if tier == "quick" else 60):
+            s = ",".join(map(str, w))
+            c, r = w[2] - w[0], w[3] - w[1]
+            if c == 0 or r == 0:
+                c = r = 0
+            rvs = [f"@v({s})"]
+            if c > 1 and r > 1:
+                rvs.append(f"@v({s})v(1,1,{c},{r})")
+            for rv in rvs:
+                cc, rr = recv_dims(C, R, rv)
+                n = cc * rr
+                ops = [f"fill 7", f"swap 0 0 {max(cc - 1, 0)} {max(rr - 1, 0)}", f"swap_rows 0 {max(rr - 1, 0)}",
+                       f"swap_cols 0 {max(cc - 1, 0)}", f"row_pair 0 {max(rr - 1, 0)}",
+                       f"copy_from_slice {fl(uniq(n, 5000))}", f"clone_from_slice {fl(uniq(n, 6000))}",
+                       f"copy_from_toodee {cc} {rr} {fl(uniq(n, 7000))}",
+                       f"copy_within 0 0 {max(cc - 1, 0)} {max(rr - 1, 0)} {1 if cc > 1 else 0} {1 if rr > 1 else 0}",
+                       f"translate {cc // 2} {rr // 2}", f"translate {max(cc - 1, 0)} 1" if rr > 1 else "translate 0 0",
+                       "flip_rows", "flip_cols",
+                       "sort_by_row 0", "sort_unstable_by_row 0", "sort_by_col 0", "sort_unstable_by_col 0", "sort_by_col_key 0", "sort_row_ord 0",
+                       f"set {max(cc - 1, 0)} {max(rr - 1, 0)} 4242", f"rowset {max(rr - 1, 0)} 0 4243", f"colset 0 {max(rr - 1, 0)} 4244",
+                       "rows_mut n,b,N0,f", "cells_mut n,b,N1,B1,f", "col_mut 0 n,b,f", f"col_mut {max(cc - 1, 0)} r", "iter_mut f"]
+                lines = []
+                for op in ops:
+                    lines += [root, f"{rv} {op}"]
+                b.case("u32", lines)
+    return b.cases
+
+
+# ------------------------------------------------------------------------------------------ C18 / C19
+
+TRANSPORTS = ["str", "slice", "reader", "value"]
+
+
+def gen_C18(tier, seed):
+    rng = random.Random(seed)
+    b = Builder("C18")
+    maxd = 4 if tier == "quick" else 6
+    for elem in ["u32", "cell"]:
+        for (C, R) in shapes(maxd) + [(1, 9), (9, 1), (7, 5)]:
+            d = [rng.choice([0, 1, 7, 4294967295, rng.randrange(2**32)]) for _ in range(C * R)]
+            root = f"@ from_vec {C} {R} {fl(d)}"
+            lines = [root, "@ ser"] + [f"@ roundtrip {t}" for t in TRANSPORTS]
+            if elem == "u32":
+                for w in sample(rng, valid_windows(C, R), 6 if tier == "quick" else 30):
+                    s_ = ",".join(map(str, w))
+                    lines.append(f"@v({s_}) ser")
+                    lines.append(f"@w({s_}) ser")
+                    for t in TRANSPORTS:
+                        lines.append(f"@{rng.choice('vw')}({s_}) roundtrip {t}")
+                if C * R:
+                    lines += [f"@s({C},{R},{C * R}) roundtrip str", f"@S({C},{R},{C * R}) roundtrip value"]
+            b.case(elem, lines)
+    return b.cases
+
+
+def json_dim_values():
+    return ["0", "1", "2", "3", "4", "6", "4294967296", "9223372036854775808", "18446744073709551615", "18446744073709551616",
+            "-1", "1.5", "1e2", "\"3\"", "null", "[]", "{}", "true", "01"]
+
+
+def gen_C19(tier, seed):
+    rng = random.Random(seed)
+    b = Builder("C19")
+    n = 600 if tier == "quick" else 6000
+    docs = []
+    small = ["0", "1", "2", "3", "4", "6"]
+    for _ in range(n):
+        kind = rng.random()
+        nc = rng.choice(small) if rng.random() < 0.75 else rng.choice(json_dim_values())
+        nr = rng.choice(small) if rng.random() < 0.75 else rng.choice(json_dim_values())
+        try:
+            prod = int(nc) * int(nr)
+        except ValueError:
+            prod = rng.randrange(5)
+        L = prod if rng.random() < 0.6 else max(0, prod + rng.choice([-1, 1, 2]))
+        L = min(L, 40)
+        elems = [str(rng.randrange(100)) for _ in range(L)]
+        if rng.random() < 0.1 and elems:
+            elems[rng.randrange(len(elems))] = rng.choice(["-1", "1.5", "\"x\"", "null", "4294967296", "[]"])
+        data = "[" + ",".join(elems) + "]"
+        if rng.random() < 0.05:
+            data = rng.choice(["7", "null", "{}", "\"abc\""])
+        fields = [("num_cols", nc), ("num_rows", nr), ("data", data)]
+        r = rng.random()
+        if r < 0.15:
+            fields.pop(rng.randrange(3))                       # missing field
+        elif r < 0.3:
+            k = rng.randrange(3)                                # duplicated field
+            dup = fields[k]
+            if dup[0] == "data" and rng.random() < 0.7:
+                dup = ("data", "[" + ",".join(str(rng.randrange(100)) for _ in range(rng.choice([prod if prod <= 40 else 0, 1, 0]))) + "]")
+            fields.insert(rng.randrange(len(fields) + 1), dup)
+        elif r < 0.4:
+            fields.insert(rng.randrange(4), (rng.choice(["extra", "num_col", "Data", "num_cols ", ""]), "1"))  # unknown key
+        rng.shuffle(fields)
+        sep = rng.choice([",", ", ", " ,\t"])
+        def key(k):
+            if rng.random() < 0.1 and k:
+                i = rng.randrange(len(k))
+                return k[:i] + "\\u%04x" % ord(k[i]) + k[i + 1:]      # escaped key: cannot be borrowed
+            return k
+        doc = "{" + sep.join(f"\"{key(k)}\":{rng.choice(['', ' '])}{v}" for k, v in fields) + "}"
+        if rng.random() < 0.03:
+            doc = rng.choice(["[]", "7", "null", "\"x\"", "{", "{}", "[1,2]", doc[:-1]])
+        docs.append(doc)
+    for i in range(0, len(docs), 25):
+        lines = []
+        for d in docs[i:i + 25]:
+            lines.append(f"@ de {rng.choice(TRANSPORTS)} {d}")
+        b.case("u32", lines)
+    # well-formed documents on the ledgered cell (ownership of the decoded vectors)
+    for _ in range(20 if tier == "quick" else 200):
+        C, R = rng.choice(shapes(4))
+        d = [str(rng.randrange(100)) for _ in range(C * R)]
+        doc = "{" + f"\"num_rows\":{R},\"data\":[{','.join(d)}],\"num_cols\":{C}" + "}"
+        b.case("cell", [f"@ de {t} {doc}" for t in TRANSPORTS])
+    return b.cases
+
+
+# ------------------------------------------------------------------------------------------ C11 / C12 / C05 / C01
+
+AFTER = ["@ dump", "@ lens", "@ push_row 1 5", "@ dump", "@ pop_col n drop", "@ clear"]
+
+
+def after_ops(rng, C):
+    """read, mutate, then (at `end`) drop: the array must stay usable after the fault / leak"""
+    return ["@ dump", "@ lens", f"@ push_row {C} {fl(uniq(C, 90000))}", "@ lens", "@ pop_row n,b drop", "@ pop_col - drop", "@ dump"]
+
+
+def gen_C11(tier, seed):
+    rng = random.Random(seed)
+    b = Builder("C11")
+    maxd = 3 if tier == "quick" else 4
+    k = 1000
+    for (C, R) in shapes(maxd):
+        d = uniq(C * R, 100)
+        root = f"@ from_vec {C} {R} {fl(d)}"
+        for elem in ["cell", "zst", "u32"]:
+            # iterator faults: panic at every position, lying lengths
+            for kind, dim, n in [("row", R, C), ("col", C, R)]:
+                for i in sorted(set([0, dim // 2, dim])):
+                    reals = sorted(set([n, max(0, n - 1), n + 1] if dim else [0, 1, 2, 3]))
+                    for real in reals:
+                        for claimed in sorted(set([real, max(0, real - 1), real + 1, n, 0, U64, 2**63])):
+                            if elem == "zst" and claimed >= 2**63:
+                                pass        # zero-sized: reserve never fails; the counted loop then hits the short iterator
+                            for bang in [None] + list(range(real)):
+                                if bang is not None and claimed != n:
+                                    continue
+                                items = [str(x) for x in uniq(real, k)]; k += 5
+                                if bang is not None:
+                                    items[bang] = "!"
+                                ev = ",".join(items) if items else "-"
+                                b.case(elem, [root, f"@ insert_{kind} {i} {claimed} {ev}"] + after_ops(rng, C if C else 2))
+        # element / comparator faults (ledgered cells)
+        n = C * R
+        for kk in sorted(set([0, 1, max(0, n - 1), n, n + 1])):
+            cases = [
+                [f"@ new {C} {R} !default:{kk}"], [f"@ init {C} {R} 7 !clone:{kk}"],
+                [root, f"@ fill 7 !clone:{kk}"], [root, f"@ fill 7 !drop:{kk}"], [root, f"@ clone !clone:{kk}"],
+                [root, f"@ clone_from_slice {fl(uniq(n, 500))} !clone:{kk}"], [root, f"@ clone_from_slice {fl(uniq(n, 500))} !drop:{kk}"],
+                [root, f"@ clone_from_toodee {C} {R} {fl(uniq(n, 600))} !clone:{kk}"],
+                [root, f"@x clone_from_toodee {C} {R} {fl(uniq(n, 600))} !clone:{kk}"],
+                [root, f"@x fill 3 !clone:{kk}"], [root, f"@v(0,0,{C},{R}) fill 3 !drop:{kk}"],
+                [root, f"@v(0,0,{C},{R}) to_owned !clone:{kk}"], [root, f"@w(0,0,{C},{R}) to_owned !clone:{kk}"],
+                [root, f"@ clear !drop:{kk}"], [root, f"@ into_iter 1 !drop:{kk}"],
+            ]
+            if C:
+                cases += [[root, f"@ remove_col {C - 1} n drop !drop:{kk}"], [root, f"@ remove_col 0 - drop !drop:{kk}"],
+                          [root, f"@ remove_row {R - 1} b drop !drop:{kk}"], [root, f"@ remove_row 0 - drop !drop:{kk}"],
+                          [root, f"@ set 0 0 9 !drop:0"], [root, f"@ pop_col b leak !drop:{kk}"]]
+                for op in ["sort_by_row 0", "sort_unstable_by_row 0", "sort_by_col 0", "sort_unstable_by_col 0"]:
+                    cases.append([root, f"@ {op} !cmp:{kk}"])
+                    cases.append([root, f"@v(0,0,{C},{R}) {op} !cmp:{kk}"])
+                for op in ["sort_by_row_key 0", "sort_unstable_by_col_key 0", "sort_by_col_key 0"]:
+                    cases.append([root, f"@ {op} !key:{kk}"])
+            for c in cases:
+                b.case("cell", c + after_ops(rng, C if C else 2))
+    return b.cases
+
+
+def gen_C12(tier, seed):
+    rng = random.Random(seed)
+    b = Builder("C12")
+    maxd = 4 if tier == "quick" else 5
+    for elem in ["cell", "u32", "zst"]:
+        for (C, R) in shapes(maxd):
+            if C * R == 0:
+                b.case(elem, ["@ default", "@ pop_row - leak", "@ pop_col - leak"] + after_ops(rng, 2))
+                continue
+            d = uniq(C * R, 100)
+            root = f"@ from_vec {C} {R} {fl(d)}"
+            for kind, dim, n in [("row", R, C), ("col", C, R)]:
+                for i in range(dim):
+                    for f in range(n + 1):
+                        for bk in range(n + 1 - f):
+                            if tier == "quick" and (f + bk + i) % 2 and n > 2:
+                                continue
+                            w = ["n"] * f + ["b"] * bk + ["l"]
+                            b.case(elem, [root, f"@ remove_{kind} {i} {','.join(w)} leak"] + after_ops(rng, C))
+                b.case(elem, [root, f"@ pop_{kind} n leak", "@ lens", f"@ pop_{kind} - leak", "@ lens", f"@ pop_{kind} b leak"] + after_ops(rng, C))
+            # borrow-only values: creating and dropping iterators/views changes nothing
+            b.case(elem, [root, "@ rows -", "@ rows_mut -", "@ cells -", "@ cells_mut -", "@ col 0 -", "@ col_mut 0 -",
+                          f"@v(0,0,{C},{R}) size", f"@w(0,0,{C},{R}) size", "@ dump"])
+    return b.cases
+
+
+def hist_ops(rng, C, R, k, elem="u32"):
+    """one random, mostly valid operation on an owned array of shape (C,R); returns (line, newC, newR)"""
+    def maybe_bad(x, dim):
+        return x if rng.random() < 0.88 else rng.choice([dim, dim + 1, U64])
+    choice = rng.random()
+    n = C * R
+    if choice < 0.13:
+        L = C if R else rng.randrange(0, 4)
+        Lc = L if rng.random() < 0.9 else L + 1
+        i = maybe_bad(rng.randrange(R + 1), R + 1)
+        ok = i <= R and (Lc == C or R == 0)
+        line = f"@ insert_row {i} {Lc} {fl(uniq(Lc, k))}"
+        return (line, (Lc, R + 1) if ok and Lc > 0 else (C, R))
+    if choice < 0.26:
+        L = R if C else rng.randrange(0, 4)
+        Lc = L if rng.random() < 0.9 else L + 1
+        i = maybe_bad(rng.randrange(C + 1), C + 1)
+        ok = i <= C and (Lc == R or C == 0)
+        line = f"@ insert_col {i} {Lc} {fl(uniq(Lc, k))}"
+        return (line, (C + 1, Lc) if ok and Lc > 0 else (C, R))
+    if choice < 0.36:
+        i = maybe_bad(rng.randrange(R) if R else 0, R)
+        w = ",".join(rng.choice("nbl") for _ in range(rng.randrange(0, C + 2))) or "-"
+        ok = i < R
+        newd = (C, R - 1) if ok else (C, R)
+        if newd[1] == 0:
+            newd = (0, 0)
+        return (f"@ remove_row {i} {w} drop", newd)
+    if choice < 0.46:
+        i = maybe_bad(rng.randrange(C) if C else 0, C)
+        w = ",".join(rng.choice("nbl") for _ in range(rng.randrange(0, R + 2))) or "-"
+        ok = i < C
+        newd = (C - 1, R) if ok else (C, R)
+        if newd[0] == 0:
+            newd = (0, 0)
+        return (f"@ remove_col {i} {w} drop", newd)
+    if choice < 0.50:
+        op = rng.choice(["pop_row", "pop_col"])
+        if op == "pop_row":
+            newd = (C, R - 1) if R else (C, R)
+            if newd[1] == 0:
+                newd = (0, 0)
+        else:
+            newd = (C - 1, R) if C else (C, R)
+            if newd[0] == 0:
+                newd = (0, 0)
+        return (f"@ {op} n drop", newd)
+    if choice < 0.53:
+        return ("@ clear", (0, 0))
+    if choice < 0.57:
+        return ("@ swap_dimensions", (R, C))
+    if choice < 0.60:
+        return (rng.choice(["@ reserve 5", "@ reserve_exact 3", "@ shrink_to_fit", "@ capacity"]), (C, R))
+    if choice < 0.64:
+        L = C if R else rng.randrange(1, 4)
+        return (f"@ push_row {L} {fl(uniq(L, k))}", (L, R + 1) if L > 0 else (C, R))
+    if choice < 0.68:
+        L = R if C else rng.randrange(1, 4)
+        return (f"@ push_col {L} {fl(uniq(L, k))}", (C + 1, L) if L > 0 else (C, R))
+    # in-place algorithms and rejected calls
+    cc = maybe_bad(rng.randrange(C) if C else 0, C)
+    rr = maybe_bad(rng.randrange(R) if R else 0, R)
+    c2 = rng.randrange(C) if C else 0
+    r2 = rng.randrange(R) if R else 0
+    ops = [f"@ fill {k}", f"@ swap {cc} {rr} {c2} {r2}", f"@ swap_rows {rr} {r2}", f"@ swap_cols {cc} {c2}",
+           f"@ translate {rng.randrange(C + 2)} {rng.randrange(R + 2)}", "@ flip_rows", "@ flip_cols",
+           f"@ sort_by_row {rr}", f"@ sort_by_col {cc}", f"@ sort_by_col_key {cc}", f"@ sort_row_ord {rr}",
+           f"@ clone_from_slice {fl(uniq(n if rng.random() < 0.8 else n + 1, k))}",
+           f"@ set {cc} {rr} {k}", f"@ rowset {rr} {cc} {k}", f"@ colset {cc} {rr} {k}", "@ clone",
+           f"@v(0,0,{C},{R}) fill {k}"]
+    if elem != "zst":
+        ops += [f"@ rows_mut n,b,f", f"@ cells_mut N1,B1", "@ col_mut 0 n,L"]     # positions are not printed for zero-sized elements
+    return (rng.choice(ops), (C, R))
+
+
+def gen_history(pid, tier, seed, elems, n_hist, length):
+    rng = random.Random(seed)
+    b = Builder(pid)
+    k = 1000
+    for h in range(n_hist):
+        elem = rng.choice(elems)
+        C, R = rng.choice(shapes(3))
+        lines = [f"@ from_vec {C} {R} {fl(uniq(C * R, 100))}"] if rng.random() < 0.7 else [rng.choice(["@ default", f"@ new {C} {R}", f"@ init {C} {R} 7", "@ with_capacity 9"])]
+        for _ in range(rng.randrange(length[0], length[1])):
+            line, (C, R) = hist_ops(rng, C, R, k, elem)
+            k += 13
+            lines.append(line)
+            if C > 6 or R > 6:
+                lines.append("@ clear"); C = R = 0
+            lines.append("@ lens")
+            if rng.random() < 0.3:
+                lines.append("@ dump")
+        b.case(elem, lines)
+    return b.cases
+
+
+def gen_C01(tier, seed):
+    cases = gen_history("C01", tier, seed, ["u32", "cell", "zst"], 150 if tier == "quick" else 2500, (10, 40))
+    # exhaustive short histories over the structural ops on tiny shapes
+    b = Builder("C01x")
+    ops = ["@ insert_row 0 {C} {row}", "@ insert_col 0 {R} {col}", "@ remove_row 0 n drop", "@ remove_col 0 b drop", "@ pop_row - drop",
+           "@ pop_col - drop", "@ clear", "@ swap_dimensions", "@ push_row {C} {row}", "@ push_col {R} {col}", "@ insert_row 9 {C} {row}",
+           "@ remove_col 9 - drop", "@ push_row 1 7", "@ push_col 2 8,9"]
+    depth = 3 if tier == "quick" else 4
+    for (C, R) in [(0, 0), (1, 1), (2, 1), (1, 2), (2, 2)]:
+        for word in itertools.product(range(len(ops)), repeat=depth):
+            if tier == "quick" and (sum(word) + C + R) % 5:
+                continue
+            # the generator does not track the shape here: lengths are the *initial* dims, so many calls are rejected — fine
+            lines = [f"@ from_vec {C} {R} {fl(uniq(C * R, 100))}"]
+            for j, w in enumerate(word):
+                lines.append(ops[w].format(C=C, R=R, row=fl(uniq(C, 200 + 10 * j)), col=fl(uniq(R, 300 + 10 * j))))
+                lines.append("@ lens")
+            b.case("cell", lines)
+    return cases + b.cases
+
+
+def gen_C05(tier, seed):
+    cases = gen_history("C05", tier, seed + 77, ["cell", "zst"], 150 if tier == "quick" else 2500, (10, 40))
+    rng = random.Random(seed)
+    b = Builder("C05x")
+    for (C, R) in shapes(3 if tier == "quick" else 4):
+        d = uniq(C * R, 100)
+        root = f"@ from_vec {C} {R} {fl(d)}"
+        for elem in ["cell", "zst"]:
+            b.case(elem, [root, "@ into_vec"]); b.case(elem, [root, "@ into_box"])
+            for kk in range(C * R + 2):
+                b.case(elem, [root, f"@ into_iter {kk}"])
+            b.case(elem, [root, "@ clone", "@ clear", "@ clone"])
+            b.case(elem, [root, f"@v(0,0,{C},{R}) to_owned", f"@w(0,0,{C},{R}) to_owned", "@ fill 3", f"@v(0,0,{C},{R}) fill 4"])
+            b.case(elem, [root, f"@ from_vec {C} {R} {fl(uniq(C * R, 500))}", f"@ init {C} {R} 1", f"@ new {C} {R}", "@ default"])
+    return cases + b.cases
+
+
 # ------------------------------------------------------------------------------------------ registry
 
 GENS = {}
